@@ -222,11 +222,14 @@ impl<'a> From<Frame<'a>> for Message<'a> {
     fn from(frame: Frame<'a>) -> Self {
         match frame.data().len() {
             0 => match frame.message_type() {
+                MsgType(0) => Message::SendData(Offset(frame.address().0), frame.into_data()),
                 MsgType(1) => Message::DataChunksSent(ChunkCount(frame.address().0)),
                 _ => Message::Unknown(frame),
             },
 
             1 => match (frame.message_type(), frame.data()[0]) {
+                (MsgType(0), _) => Message::SendData(Offset(frame.address().0), frame.into_data()),
+
                 (MsgType(2), 0xFF) => Message::Hello(frame.address()),
                 (MsgType(2), 0x00) => Message::QueryState(frame.address()),
                 (MsgType(2), 0x55) => Message::Goodbye(frame.address()),
